@@ -177,7 +177,9 @@ def generate(ctx, cfgs, quick_n):
         return out
     keep, pool = uniq(keep), uniq(pool)
     total = len(keep) + len(pool)
-    if ctx.quick and len(pool) > quick_n:
+    if not ctx.quick:
+        quick_n = quick_n * 25      # thorough: a much larger stratified sample of the two-edit histories
+    if len(pool) > quick_n:
         # stratified seeded sample: one history per "shape" (initial repository, sequence of step kinds) in turn
         rng = random.Random(ctx.seed)
         strata = {}
@@ -200,7 +202,7 @@ def generate(ctx, cfgs, quick_n):
         # for the exhaustive part, also with atomic replacement
         if any(st["act"] == "EditFile" for st in b["steps"]):
             behs.append((b, True))
-            if b in keep or not ctx.quick:
+            if b in keep:
                 behs.append((b, False))
         else:
             behs.append((b, True))
@@ -235,7 +237,7 @@ def common(ctx, prop, opts_list, cfgs, quick_n):
                 ctx.violation(sig, det)
     if drift:
         ctx.drift("%d build(s) executed a different command set than the algorithm model predicted (allowed by the property)" % drift)
-    ctx.exhaustive = True   # every one-edit history (quick) / every history of the bounded model (thorough) is replayed
+    ctx.exhaustive = True   # every one-edit history of the bounded model is replayed; two-edit histories are a stratified sample
     ctx.assumptions += ["SHA collisions do not occur (hashes abstract and injective in the spec, DESIGN 2.7)",
                        "compared: declared outputs of the requested targets and their dependencies; stray files in plz-out are not outputs",
                        "the clean build (empty plz-out, no cache) of the same tree is the oracle; the spec's Ideal term predicts it and a mismatch between the two is exit 2"]
@@ -262,7 +264,8 @@ def run_c01(ctx):
     cfgs = [("GEN_Incremental_1.cfg", {}, True), ("GEN_Incremental_dir1.cfg", {}, True), ("GEN_Incremental.cfg", {}, False),
             ("GEN_Incremental_dir.cfg", {}, False)]
     if not ctx.quick:
-        cfgs = [("GEN_Incremental_1.cfg", {}, True), ("GEN_Incremental.cfg", {}, True), ("GEN_Incremental_dir.cfg", {}, True)]
+        cfgs = [("GEN_Incremental_1.cfg", {}, True), ("GEN_Incremental_dir1.cfg", {}, True), ("GEN_Incremental.cfg", {}, False),
+                ("GEN_Incremental_dir.cfg", {}, False)]
     common(ctx, "C01", [dict(threads=None)], cfgs, quick_n=80)
 
 
@@ -281,7 +284,7 @@ def run_c02(ctx):
                 "non-trivial = edit or plz-out deletion between two builds; distinct by history + cache mode")
     cfgs = [("GEN_Incremental_cache1.cfg", {}, True), ("GEN_Incremental_cache.cfg", {}, False)]
     if not ctx.quick:
-        cfgs = [("GEN_Incremental_cache1.cfg", {}, True), ("GEN_Incremental_cache.cfg", {}, True)]
+        cfgs = [("GEN_Incremental_cache1.cfg", {}, True), ("GEN_Incremental_cache.cfg", {}, False)]
     common(ctx, "C02", [dict(cache=True, compress=False), dict(cache=True, compress=True)], cfgs, quick_n=40)
 
 
@@ -301,6 +304,6 @@ def run_c03(ctx):
                 "non-trivial = edit or plz-out deletion between two builds")
     cfgs = [("GEN_Incremental_1.cfg", {}, True), ("GEN_Incremental_dir1.cfg", {}, True), ("GEN_Incremental.cfg", {}, False)]
     if not ctx.quick:
-        cfgs = [("GEN_Incremental_1.cfg", {}, True), ("GEN_Incremental_dir1.cfg", {}, True), ("GEN_Incremental.cfg", {}, True),
-                ("GEN_Incremental_dir.cfg", {}, True)]
+        cfgs = [("GEN_Incremental_1.cfg", {}, True), ("GEN_Incremental_dir1.cfg", {}, True), ("GEN_Incremental.cfg", {}, False),
+                ("GEN_Incremental_dir.cfg", {}, False)]
     common(ctx, "C03", [dict(threads=None)], cfgs, quick_n=80)
